@@ -127,8 +127,13 @@ def measure_real(Q, bo, dt, variant):
     stack.coord = np.stack([np.stack(q), np.stack(q)]).astype(np.float32)
     kw = {}
     if box is not None:
-        stack.box = np.stack([box, box]).astype(np.float32)
-        kw = {"periodic": True}
+        if variant % 2:
+            # documented: an explicit `box` is used *instead of* the box attribute of `atoms`
+            stack.box = np.stack([np.eye(3) * 32, box * 2]).astype(np.float32)
+            kw = {"periodic": True, "box": np.stack([box, box]).astype(np.float32)}
+        else:
+            stack.box = np.stack([box, box]).astype(np.float32)
+            kw = {"periodic": True}
     return {"disp": struc.index_displacement(stack, np.array([[0, 1]]), **kw),
             "dist": struc.index_distance(stack, np.array([[0, 1]]), **kw),
             "ang": struc.index_angle(stack, np.array([[0, 1, 2]]), **kw),
@@ -519,8 +524,9 @@ def gen_trace(item):
             else:
                 same = True
             di, exact = _rint(disp)
-            d2 = [int(round(float(x) ** 2)) for x in dist]
-            d2ok = all(abs(float(x) ** 2 - r) < 1e-3 for x, r in zip(dist, d2))
+            finite = all(math.isfinite(float(x)) for x in dist)
+            d2 = [int(round(float(x) ** 2)) if math.isfinite(float(x)) else -1 for x in dist]
+            d2ok = finite and all(abs(float(x) ** 2 - r) < 1e-3 for x, r in zip(dist, d2))
             cosA = [_enclose(math.cos(float(a))) if math.isfinite(float(a)) else [2 * KK, -2 * KK] for a in ang]
             dd = []
             for a in dih:
